@@ -95,13 +95,15 @@ Qed.
 Lemma faulty_offer_changes_nothing_l c s p sz k s' z :
   step c s (LOfferF p sz k) = Some (s', z) ->
   kind c = Pers /\ lock s = Free /\
-  (exists r, s' = setp p (PRet r) s /\ refused_result r = true) /\
-  (size s + sz > cap c -> z = c_full /\ blocking c = false /\ pget p (prods s') = Some (PRet RFull)) /\
-  (size s + sz <= cap c -> z = k /\ pget p (prods s') = Some (PRet (RErr k))) /\
+  (size s + sz <= cap c -> z = k /\ s' = setp p (PRet (RErr k)) s) /\
+  (size s + sz > cap c -> blocking c = false -> z = c_full /\ s' = setp p (PRet RFull) s) /\
+  (size s + sz > cap c -> blocking c = true ->
+     z = c_blocked /\ pget p (prods s') = Some (PInSelect sz) /\ waiting s' = waiting s + 1 /\
+     faulty s' = faulty s ++ [(p, k)]) /\
   size s' = size s /\ items s' = items s /\ inflight s' = inflight s /\ acc s' = acc s /\ hand s' = hand s /\
-  waiting s' = waiting s /\ tok s' = tok s /\ cons s' = cons s /\ held s' = held s /\ pool s' = pool s.
+  tok s' = tok s /\ cons s' = cons s /\ held s' = held s /\ pool s' = pool s.
 Proof.
   intros H. revert H. step_cases; rewrite ?pget_pset_eq;
-    (split; [reflexivity|]); (split; [reflexivity|]); (split; [eexists; split; reflexivity|]);
-    repeat split; intros; try reflexivity; try lia.
+    (split; [reflexivity|]); (split; [reflexivity|]);
+    repeat split; intros; try reflexivity; try lia; try discriminate; try congruence.
 Qed.
